@@ -53,6 +53,7 @@ class EpochWaiter {
   EpochWaiter() : ftx_(0) {}
 
   void bumpAndWake() {
+    DISPENSO_VERIF_POINT("EwBump", this);
     epoch_.fetch_add(1, std::memory_order_acq_rel);
     futex(&ftx_, FUTEX_WAKE_PRIVATE, 1, nullptr, nullptr, 0);
   }
@@ -64,15 +65,18 @@ class EpochWaiter {
   // immediately without sleeping; threads that are already in
   // tryFindAndExecuteWork pick up the just-queued task naturally.
   void bump() {
+    DISPENSO_VERIF_POINT("EwBump", this);
     epoch_.fetch_add(1, std::memory_order_acq_rel);
   }
 
   void bumpAndWakeAll() {
+    DISPENSO_VERIF_POINT("EwBump", this);
     epoch_.fetch_add(1, std::memory_order_acq_rel);
     futex(&ftx_, FUTEX_WAKE_PRIVATE, std::numeric_limits<int>::max(), nullptr, nullptr, 0);
   }
 
   void bumpAndWakeN(int n, int totalWaiters) {
+    DISPENSO_VERIF_POINT("EwBump", this);
     epoch_.fetch_add(1, std::memory_order_acq_rel);
     (void)totalWaiters;
     futex(&ftx_, FUTEX_WAKE_PRIVATE, n, nullptr, nullptr, 0);
@@ -81,20 +85,24 @@ class EpochWaiter {
   uint32_t wait(uint32_t expectedEpoch) const {
     uint32_t current;
     // allow spurious wakeups
+    DISPENSO_VERIF_POINT("EwLoadEpochB", this);
     if ((current = epoch_.load(std::memory_order_acquire)) == expectedEpoch) {
       futex(&ftx_, FUTEX_WAIT_PRIVATE, expectedEpoch, nullptr, nullptr, 0);
     } else {
       return current;
     }
+    DISPENSO_VERIF_POINT("EwLoadEpochC", this);
     return epoch_.load(std::memory_order_acquire);
   }
 
   uint32_t current() const {
+    DISPENSO_VERIF_POINT("EwLoadEpochC", this);
     return epoch_.load(std::memory_order_acquire);
   }
 
   uint32_t waitFor(uint32_t expectedEpoch, uint64_t relTimeUs) const {
     uint32_t current;
+    DISPENSO_VERIF_POINT("EwLoadEpochA", this);
     if ((current = epoch_.load(std::memory_order_acquire)) != expectedEpoch) {
       return current;
     }
@@ -104,11 +112,13 @@ class EpochWaiter {
     ts.tv_nsec = static_cast<decltype(ts.tv_nsec)>((relTimeUs - (ts.tv_sec * 1000000)) * 1000);
 
     // allow spurious wakeups
+    DISPENSO_VERIF_POINT("EwLoadEpochB", this);
     if ((current = epoch_.load(std::memory_order_acquire)) == expectedEpoch) {
       futex(&ftx_, FUTEX_WAIT_PRIVATE, current, &ts, nullptr, 0);
     } else {
       return current;
     }
+    DISPENSO_VERIF_POINT("EwLoadEpochC", this);
     return epoch_.load(std::memory_order_acquire);
   }
 
